@@ -268,4 +268,14 @@ theorem getEpsilon_pos (v : ℝ) : 0 < getEpsilon v := by
   have : (0 : ℝ) < max |v| 1 := lt_of_lt_of_le one_pos (le_max_right _ _)
   positivity
 
+/-- a separable quadratic in any number of arguments: `Σ_k (a_k x_k² + b_k x_k)` (coefficients `(a_k, b_k)`) -/
+def sepQuad : List (ℝ × ℝ) → List ℝ → ℝ
+  | (a, b) :: cs, x :: xs => a * x ^ 2 + b * x + sepQuad cs xs
+  | _, _ => 0
+
+/-- its gradient contracted with the inner derivatives: `Σ_k (2 a_k v_k + b_k) d_k` -/
+def sepQuadDiff : List (ℝ × ℝ) → List (ℝ × ℝ × ℝ) → ℝ
+  | (a, b) :: cs, (v, d, _) :: rest => (2 * a * v + b) * d + sepQuadDiff cs rest
+  | _, _ => 0
+
 end IrisVerif.AD
